@@ -46,13 +46,16 @@ Qed.
 
 (** The position computed for a byte offset (SourceInfo::pos_for, used for macro errors)
     exists for every offset inside the source and never points beyond it: the line is an
-    existing line and the column lies within that line (its newline included). *)
+    existing line and the column - counted in characters, as the columns of syntax errors
+    are - lies within that line (its newline included) whenever the offset is where a character
+    starts, which every token's offset is. *)
 Theorem C01_pos_in_source : forall src start,
   ((start < length src)%nat -> pos_for src start <> None) /\
   forall l c, pos_for src start = Some (l, c) ->
     (1 <= l <= length (split_inclusive src []))%nat /\
-    exists piece, nth_error (split_inclusive src []) (l - 1) = Some piece /\
-                  (1 <= c <= length piece)%nat.
+    exists piece k, nth_error (split_inclusive src []) (l - 1) = Some piece /\ (k < length piece)%nat /\
+                    (1 <= c <= nchars piece + 1)%nat /\
+                    (is_cont (nth k piece 0%N) = false -> (c <= nchars piece)%nat).
 Proof. exact pos_for_in_source. Qed.
 
 (** Unknown characters: where no token rule can start, lexing fails (and [compile] rejects). *)
